@@ -535,6 +535,12 @@ def r13_6(ctx):
         if ps.startswith("Lit("):
             ok = bs == "True"
             why = "literals are constant"
+            # nothing rides along in the same arm: a template literal with substitutions, a call, ... are not constants
+            alts = [p_.strip() for p_ in ps.split(" | ")]
+            extra = [p_ for p_ in alts if not p_.startswith("Lit(")]
+            if extra:
+                ok = False
+                why = "%s is classified constant together with literals" % extra
         elif ps.startswith("Ident("):
             ok = "'undefined'" in bs and "==" in bs
             why = "identifier only when it is `undefined`"
